@@ -156,12 +156,12 @@ func AllocLimit(n int) {
 
 // Prefer is a soft constraint used only when the solver picks the model of a
 // counterexample (to make native replay likely to follow the same path).
-func Prefer(c bool)      {}
-func MaxLen(n int)       {}
-func Unwind(n int)       {}
-func MapOrderNondet()    {}
-func Note(s string)      {}
-func Symbolic() bool     { return false }
+func Prefer(c bool)   {}
+func MaxLen(n int)    {}
+func Unwind(n int)    {}
+func MapOrderNondet() {}
+func Note(s string)   {}
+func Symbolic() bool  { return false }
 func Tier() int {
 	if vec != nil {
 		return vec.Tier
@@ -211,7 +211,11 @@ func Run(f func()) (outcome string) {
 		}
 	}
 	if len(failures) > 0 {
-		return "reproduced: " + failures[0]
+		out := "reproduced: " + failures[0]
+		for _, f := range failures[1:] {
+			out += " ;; " + f
+		}
+		return out
 	}
 	return "not-reproduced"
 }
